@@ -423,6 +423,21 @@ def quad_patch(name, n=4, cell=0.002, lon0=11.0, lat0=47.0):
     return Mesh(name, pts, faces, False)
 
 
+def polar_cap2(name="polarcap2", sgn=1.0):
+    """pole node + ring of 5 at 89.8 degrees + ring of 5 at 89.0: nodes close to, but not on, the pole (0.2 degrees = 22 km: far outside
+    any legitimate pole-snapping tolerance); 5 triangles + 5 quads."""
+    pts = [(0.0, 0.0, sgn)]
+    pts += [lonlat_to_xyz(-170.0 + 72.0 * i, sgn * 89.8) for i in range(5)]
+    pts += [lonlat_to_xyz(-170.0 + 72.0 * i + 9.0, sgn * 89.0) for i in range(5)]
+    faces = []
+    for i in range(5):
+        j = (i + 1) % 5
+        faces.append((0, 1 + i, 1 + j))
+        faces.append((1 + i, 6 + i, 6 + j, 1 + j))
+    faces = [orient_ccw(pts, f) for f in faces]
+    return Mesh(name, pts, faces, False, tags=("pole",))
+
+
 _CACHE = {}
 _EXTRA = {}
 
@@ -430,7 +445,7 @@ _EXTRA = {}
 def extra():
     """meshes used by later checks only (not part of the C02/C03 catalogue)."""
     if not _EXTRA:
-        for m in [sizes38(), cubesphere(3), single(4), single(6), single(8), am3(), eq_ring(), quad_patch("finequads"), quad_patch("finequads-am", lon0=179.997, lat0=-20.0), quad_patch("finequads-pole", n=3, cell=0.004, lon0=60.0, lat0=89.98)]:
+        for m in [sizes38(), cubesphere(3), single(4), single(6), single(8), am3(), eq_ring(), quad_patch("finequads"), quad_patch("finequads-am", lon0=179.997, lat0=-20.0), quad_patch("finequads-pole", n=3, cell=0.004, lon0=60.0, lat0=89.98), polar_cap2(), polar_cap2("polarcap2s", -1.0)]:
             _EXTRA[m.name] = m
     return _EXTRA
 
